@@ -14,6 +14,7 @@ inductive Err where
   | suitError           -- SUITError (tag mismatch)
   | osError             -- FileNotFoundError / OSError
   | internal (kind : String)   -- anything else the Python would let escape (TypeError, IndexError, KeyError …)
+  | model (what : String)      -- model artefact: class index outside the schema / a class the translator could not classify
   | fuel                -- model artefact: recursion budget exhausted (never for budgets derived from the input size)
   deriving Repr, BEq, DecidableEq
 
